@@ -214,6 +214,8 @@ pub struct Sched {
     pub trace: Vec<usize>,
     pub stamp_src: Option<Arc<std::sync::atomic::AtomicU64>>,
     pub panicked: Option<String>,
+    /// number of steps performed so far (readable from inside tasks: logical time of a history)
+    pub step_counter: Arc<std::sync::atomic::AtomicU64>,
 }
 
 impl Default for Sched {
@@ -232,6 +234,7 @@ impl Sched {
             trace: Vec::new(),
             stamp_src: None,
             panicked: None,
+            step_counter: Arc::new(std::sync::atomic::AtomicU64::new(0)),
         }
     }
 
@@ -298,6 +301,7 @@ impl Sched {
 
     /// Perform one step: poll one task once, or advance the paused clock.
     pub async fn step(&mut self, id: usize) {
+        self.step_counter.fetch_add(1, Ordering::SeqCst);
         self.trace.push(id);
         self.last = Some(id);
         if id == ADVANCE {
@@ -358,7 +362,9 @@ impl Sched {
             let pick = if en.len() == 1 {
                 0
             } else {
-                let class = if self.last_still_enabled() { Some(0u8) } else { None };
+                // class 0: preemption (the task that just ran could continue);
+                // class 1: delay (a non-default task is picked at a point where the last task is blocked)
+                let class = if self.last_still_enabled() { Some(0u8) } else { Some(1u8) };
                 ch.choose(en.len(), class)
             };
             self.step(en[pick]).await;
